@@ -9,7 +9,7 @@ Class invariant INV_model — for all 0 <= k < npt():
   (g) factorisation_current => G.fact_ver == G.geom            (the cached QR belongs to the current geometry)
 """
 import ast, z3
-from pyvc.domains.model import ModelDomain, V, F, vadd_f, vsub_f, vmin_f, vmax_f, hU_f, sumsq_f, mulJ_f, Arr, isnan_f, rv_f, FINF
+from pyvc.domains.model import ModelDomain, V, F, vadd_f, vsub_f, vmin_f, vmax_f, hU_f, sumsq_f, mulJ_f, Arr, isnan_f, rv_f, FINF, transp_f, vscale_f
 from pyvc.core import Ob, isz, isfp, Opt
 
 MODS = ['self.points', 'self.fval_v', 'self.objval', 'self.nsamples', 'self.eval_num', 'self.kopt', 'self.npt_so_far',
@@ -28,10 +28,12 @@ def build(repo):
     sb['vsub'] = lambda a, b: vsub_f(a, b)
     sb['hU'] = lambda a: hU_f(a)
     sb['matvec'] = lambda a, b: mulJ_f(a, b)
+    sb['transp'] = lambda a: transp_f(a)
+    sb['twice'] = lambda a: vscale_f(z3.RealVal('2.0'), a)
     sb['val'] = lambda a: a.val if isinstance(a, Opt) else a
     sb['same_opt'] = same_opt
     from pyvc.domains.model import ZEROV
-    D.spec_consts = {'zerov': ZEROV}
+    D.spec_consts = {'zerov': ZEROV, 'anyY': z3.Const('anyY', V)}
 
     D.predicate('npt', ['m'], 'min(m.num_pts, m.npt_so_far)')
     D.predicate('Fobj', ['m', 'r', 'xabs'], 'ite(isnone(m.h), sumsq(r), sumsq(r) + hU(xabs))')
@@ -136,6 +138,11 @@ def build(repo):
                         'self.sl == vsub(old(self.sl), xbase_shift) and self.su == vsub(old(self.su), xbase_shift)',
                         ('absolute points unchanged:: forall(j, 0, npt(self), vadd(self.xbase, self.points[j]) == vadd(old(self.xbase), old(self.points[j])))', 'C16', 'C17', 'C03'),
                         ('model constant follows the shift:: self.model_const == vadd(old(self.model_const), matvec(self.model_jac, xbase_shift))', 'C16'),
+                        ('model values at every fixed absolute point are unchanged (y arbitrary, relative to the old base):: '
+                         'vadd(self.model_const, matvec(self.model_jac, vsub(anyY, xbase_shift))) == vadd(old(self.model_const), matvec(self.model_jac, anyY))', 'C16'),
+                        ('the residual vector assembled by build_full_model (model_const + J*xopt) is unchanged, hence so are g = 2*J^T*r and H = 2*J^T*J:: '
+                         'vadd(self.model_const, matvec(self.model_jac, self.xopt())) == vadd(old(self.model_const), matvec(self.model_jac, old(self.xopt())))', 'C16'),
+                        ('the Jacobian itself is not touched by a base shift:: self.model_jac == old(self.model_jac)', 'C16'),
                         ('cached factorisation invalidated:: not self.factorisation_current', 'C16', 'C17'),
                         ] + INV_ENS)
     # ------------------------------------------------------------------ save_point
@@ -198,7 +205,11 @@ def build(repo):
                          'and val(self.model_jac_eval_nums) == self.eval_num)', 'C11'),
                         ('failed fit keeps the previous pair:: implies(not result[0] and not make_full_rank, self.model_jac == old(self.model_jac) and same_opt(self.model_jac_eval_nums, old(self.model_jac_eval_nums)))', 'C11')] + INV_ENS,
                params={'make_full_rank': 'bool', 'verbose': 'bool', 'get_chg_J': 'bool', 'throw_error_on_nans': 'bool'})
-    D.verify_list = ['Model.__init__', 'Model.factorise_geom_system', 'Model.interpolate_mini_models_svd', 'Model.change_point', 'Model.swap_points', 'Model.add_new_sample', 'Model.add_new_point', 'Model.shift_base',
+    D.contract('Model.build_full_model', tags=['C16'], requires=['INV_model(self)'], modifies=[], result=None,
+               ensures=['g = 2 J^T r with r = model_const + J xopt (Gauss-Newton assembly; the convention is sum of squares, no factor 1/2):: '
+                        'result[0] == twice(matvec(transp(self.model_jac), vadd(self.model_const, matvec(self.model_jac, self.xopt()))))',
+                        'H = 2 J^T J:: result[1] == twice(matvec(transp(self.model_jac), self.model_jac))'])
+    D.verify_list = ['Model.build_full_model', 'Model.__init__', 'Model.factorise_geom_system', 'Model.interpolate_mini_models_svd', 'Model.change_point', 'Model.swap_points', 'Model.add_new_sample', 'Model.add_new_point', 'Model.shift_base',
                      'Model.save_point', 'Model.get_final_results']
     return D
 
